@@ -240,6 +240,17 @@ impl<T: Send> MpmcShared<T> {
     Err(TrySendError::Full(item))
   }
 
+  /// Remove a (possibly still queued) async receiver record. A registered future
+  /// that is polled again without having been notified (a spurious poll) can
+  /// complete straight from the buffer while its record is still linked; the
+  /// record points into the future and must not outlive it.
+  pub(crate) fn unlink_async_receiver(&self, state_ptr: *const AtomicU8) {
+    let mut guard = self.internal.lock();
+    guard
+      .waiting_async_receivers
+      .retain(|w| w.state != state_ptr);
+  }
+
   pub(crate) fn try_recv_core(&self) -> Result<T, TryRecvError> {
     let mut guard = self.internal.lock();
 
